@@ -494,6 +494,80 @@ def scenario_lock_live(ctx, seed, shape, first, offsets):
         shutil.rmtree(a.root, ignore_errors=True)
 
 
+def build_pause_shim(snap):
+    out = os.path.join(snap, 'c14_pause.so')
+    if not os.path.exists(out):
+        r = run(['gcc', '-shared', '-fPIC', '-O1', '-o', out, os.path.join(VERIF, 'harness', 'c', 'c14_pause.c'), '-ldl'])
+        if r.returncode != 0:
+            raise BuildError(r.stdout)
+    return out
+
+
+def scenario_lock_three(ctx, seed, shape, first):
+    """three commands, one interleaving: P1 ends (if it removes its lock file, it is paused between releasing the flock and
+    removing the path); P2 starts and holds the lock; P1 is let go; P3 starts while P2 runs: P3 must be refused."""
+    rng = random.Random(seed)
+    nd, np_, nc = shape
+    a = new_array(ctx, rng, nd=nd, np_=np_, ncontent=nc)
+    replay = {'seed': seed, 'kind': 'lock_three', 'shape': shape, 'first': first}
+    lockp = a.content_files[0] + '.lock'
+    p1 = p2 = None
+    try:
+        add_pending(a, rng)
+        env = dict(os.environ); env.pop('LD_PRELOAD', None)
+        env1 = dict(env, LD_PRELOAD=ctx.pause_shim, C14_PAUSE_MS='8000')
+        base = [a.bin] + BASE_OPTS + ['-c', a.conf]
+        p1 = subprocess.Popen(base + [first], stdout=subprocess.PIPE, stderr=subprocess.PIPE, env=env1, cwd=a.root)
+        t0 = time.time()
+        while time.time() - t0 < 6 and p1.poll() is None and not os.path.exists(lockp + '.paused'):
+            time.sleep(0.01)
+        paused = os.path.exists(lockp + '.paused') and p1.poll() is None
+        p2 = subprocess.Popen(base + ['--test-run', 'sleep 1.5', 'sync'], stdout=subprocess.PIPE, stderr=subprocess.PIPE, env=env, cwd=a.root)
+        t0 = time.time()
+        while time.time() - t0 < 5 and L.lock_is_free(a) and p2.poll() is None:
+            time.sleep(0.01)
+        if p2.poll() is not None or L.lock_is_free(a):
+            out2, err2 = p2.communicate()
+            ctx.viol('lock_three_p2', 'second command could not take the lock after the first one ended (rc %s): %s' % (p2.returncode, err2.decode('latin1')[-200:]), replay)
+            return
+        if paused:
+            open(lockp + '.go', 'w').close()
+        p1.communicate(timeout=30)
+        before = protected_bytes(a)
+        r3 = a.run('sync', shim_env={})
+        alive = p2.poll() is None
+        after = protected_bytes(a)
+        with ctx.lock:
+            ctx.runs += 1
+            ctx.refusals += 1
+        if alive:
+            bad = []
+            if r3.rc == 0:
+                bad.append('exit status 0: it ran concurrently with the command holding the lock')
+            if 'already in use' not in r3.err:
+                bad.append('no lock diagnostic')
+            if before != after:
+                bad.append('content or parity bytes changed')
+            if bad:
+                ctx.viol('lock_three', 'LOCK NOT HONOURED (three commands: `%s` ended%s, `sync` holds the lock, a third `sync` started): %s'
+                         % (first, ' and removed the lock file' if paused else '', '; '.join(bad)), dict(replay, rc=r3.rc, stderr=r3.err[-300:], first_removed_lock_file=paused))
+        p2.communicate(timeout=60)
+        if paused:
+            ctx.viol('lock_removed3', 'LOCK FILE REMOVED: `%s` removes %s after releasing the flock' % (first, lockp), replay)
+        for x in (lockp + '.paused', lockp + '.go'):
+            if os.path.exists(x):
+                os.unlink(x)
+        r = a.run('sync')
+        if r.rc != 0:
+            ctx.viol('lock_three_after', 'after all commands ended `sync` fails (rc %d): %s' % (r.rc, r.err[-200:]), replay)
+        ctx.proceeds += 1
+    finally:
+        for p in (p1, p2):
+            if p is not None and p.poll() is None:
+                p.kill()
+        shutil.rmtree(a.root, ignore_errors=True)
+
+
 def scenario_empty_dirs_only(ctx, seed):
     """a disk that only ever held empty directories: removing them is not `all files missing`"""
     rng = random.Random(seed)
@@ -589,6 +663,11 @@ def main(tier, replay=None):
         chk.violation('model_build', 'command model does not build: ' + str(e)[:300], {'error': str(e)}, no_input=True)
         return chk.finish()
     ctx = Ctx(chk, binary, shim, model, tier)
+    try:
+        ctx.pause_shim = build_pause_shim(snap)
+    except BuildError as e:
+        chk.violation('build', 'pause shim does not build: ' + str(e)[:300], {'error': str(e)}, no_input=True)
+        return chk.finish()
     rng = chk.rng
     jobs = []
     shapes = [(2, 1, 1), (3, 2, 2), (3, 3, 1), (4, 2, 3)]
@@ -645,6 +724,9 @@ def main(tier, replay=None):
     for f in firsts:
         offs = [0.0, 0.15, 0.4, 0.8] if not thorough else [0.0, 0.05, 0.1, 0.2, 0.35, 0.5, 0.8, 1.2]
         jobs.append((scenario_lock_live, (rng.getrandbits(30), shape(k), f, offs)))
+        k += 1
+    for f in (['status'] if not thorough else ['status', 'sync', 'check', 'scrub', 'diff', 'fix', 'touch', 'list']):
+        jobs.append((scenario_lock_three, (rng.getrandbits(30), shape(k), f)))
         k += 1
     jobs.append((scenario_empty_dirs_only, (rng.getrandbits(30),)))
     jobs.append((scenario_hardlink, (rng.getrandbits(30),)))
